@@ -1,5 +1,6 @@
 CONSTANTS
   NSlots = 12
+  Abs = FALSE
   Lean = FALSE
   Vocab = "exec"
 INIT Init
